@@ -217,8 +217,9 @@ where
 
                 // Handle post-commit operations
 
-                // Check if the local member was removed by this commit
-                if mls_group.own_leaf().is_none() {
+                // Check if the local member was removed by this commit (by group state as well:
+                // the leaf index may have been taken over by a member the commit added)
+                if mls_group.own_leaf().is_none() || !mls_group.is_active() {
                     return match self.handle_local_member_eviction(&group.mls_group_id, event) {
                         Ok(_) => Ok(MessageProcessingResult::Commit {
                             mls_group_id: group.mls_group_id.clone(),
